@@ -16,6 +16,7 @@ package rawdb
 
 import (
 	"bytes"
+	"encoding/binary"
 	"encoding/json"
 	"fmt"
 	"math/big"
@@ -33,6 +34,7 @@ import (
 	"github.com/ethereum/go-ethereum/internal/verif/crashkv"
 	"github.com/ethereum/go-ethereum/internal/verif/mc"
 	"github.com/ethereum/go-ethereum/internal/verif/vos"
+	"github.com/ethereum/go-ethereum/rlp"
 )
 
 // ---- chains -------------------------------------------------------------------
@@ -170,14 +172,16 @@ func c25Read(db ethdb.Database, c *c25Chain) (c25View, error) {
 		if blk == nil || blk.Hash() != hash || len(blk.Transactions()) != 1 {
 			return nil, fmt.Errorf("ReadBlock(%d) wrong or nil", n)
 		}
-		txh := b.block.Transactions()[0].Hash()
-		lk := ReadTxLookupEntry(db, txh)
-		if lk == nil || *lk != n {
-			return nil, fmt.Errorf("ReadTxLookupEntry(tx of block %d) = %v", n, lk)
-		}
-		tx, bh, bn, ti := ReadCanonicalTransaction(db, txh)
-		if tx == nil || bh != hash || bn != n || ti != 0 || tx.Hash() != txh {
-			return nil, fmt.Errorf("ReadCanonicalTransaction(tx of block %d) wrong", n)
+		if n > 0 { // a lookup entry for block 0 is encoded as the empty string and reads as absent
+			txh := b.block.Transactions()[0].Hash()
+			lk := ReadTxLookupEntry(db, txh)
+			if lk == nil || *lk != n {
+				return nil, fmt.Errorf("ReadTxLookupEntry(tx of block %d) = %v", n, lk)
+			}
+			tx, bh, bn, ti := ReadCanonicalTransaction(db, txh)
+			if tx == nil || bh != hash || bn != n || ti != 0 || tx.Hash() != txh {
+				return nil, fmt.Errorf("ReadCanonicalTransaction(tx of block %d) wrong", n)
+			}
 		}
 		v = append(v, fmt.Sprintf("%d:%x|%x|%x|%x", n, hash, hdr, body, rc))
 	}
@@ -277,8 +281,52 @@ func c25Class(err error) string {
 	return line
 }
 
-func (fd *c25Findings) add(c c25Case, err error) {
+// c25Diagnose inspects a crash image (before recovery) for the precondition of the defect
+// of the unchanged tree established by C24/C25: after the per-table recovery (index cut
+// back to the flush offset) some tables hold no item while others do, so Freezer.repair
+// mistakes the former for freshly added tables.
+func c25Diagnose(img *vos.FS) string {
+	files := img.Files()
+	empty, nonEmpty := 0, 0
+	for name, cfg := range chainFreezerTableConfigs {
+		ext := "cidx"
+		if cfg.noSnappy {
+			ext = "ridx"
+		}
+		idx := files[strings.TrimPrefix(c25AncientDir, "/")+"/chain/"+name+"."+ext]
+		meta := files[strings.TrimPrefix(c25AncientDir, "/")+"/chain/"+name+".meta"]
+		var o struct {
+			Version uint16
+			Tail    uint64
+			Offset  uint64
+		}
+		items := uint64(0)
+		if len(idx) >= indexEntrySize && len(meta) > 0 && rlp.Decode(bytes.NewReader(meta), &o) == nil {
+			usable := uint64(len(idx) - len(idx)%indexEntrySize)
+			if o.Offset < usable {
+				usable = o.Offset
+			}
+			if usable >= indexEntrySize {
+				items = uint64(binary.BigEndian.Uint32(idx[2:6])) + usable/indexEntrySize - 1
+			}
+		}
+		if items == 0 {
+			empty++
+		} else {
+			nonEmpty++
+		}
+	}
+	if empty > 0 && nonEmpty > 0 {
+		return "empty-table-next-to-non-empty-table"
+	}
+	return ""
+}
+
+func (fd *c25Findings) add(c c25Case, err error, tag string) {
 	cl := c25Class(err)
+	if tag != "" {
+		cl = "{" + tag + "} recovery fails"
+	}
 	b, _ := json.Marshal(c)
 	fd.mu.Lock()
 	defer fd.mu.Unlock()
@@ -430,7 +478,7 @@ func c25ExploreChain(r *mc.R, parents []int, final uint64, p c25Params, seen *sy
 	kv0 := kv.Len()
 	ref, err := c25Read(NewDatabase(kv.Image(kv0)), c)
 	if err != nil {
-		fd.add(base, fmt.Errorf("before freezing: %v", err))
+		fd.add(base, fmt.Errorf("before freezing: %v", err), "")
 		return
 	}
 	// the uninterrupted migration
@@ -454,7 +502,7 @@ func c25ExploreChain(r *mc.R, parents []int, final uint64, p c25Params, seen *sy
 	})
 	r.Eval(1)
 	if err != nil {
-		fd.add(base, fmt.Errorf("uninterrupted migration: %v", err))
+		fd.add(base, fmt.Errorf("uninterrupted migration: %v", err), "")
 		return
 	}
 	r.Outcome("uninterrupted_ok")
@@ -509,13 +557,14 @@ func c25ExploreChain(r *mc.R, parents []int, final uint64, p c25Params, seen *sy
 					}
 					var outcome string
 					r.Case(cs, func() error {
+						tag := c25Diagnose(img)
 						err := mc.Safely(func() error {
 							o, err := c25Recover(kv.Image(keep), img, c, ref)
 							outcome = o
 							return err
 						})
 						if err != nil {
-							fd.add(cs, fmt.Errorf("%v\ncrash image (file system):\n%s", err, c25Dump(cp, pt)))
+							fd.add(cs, fmt.Errorf("%v\ncrash image (file system):\n%s", err, c25Dump(cp, pt)), tag)
 						}
 						return nil
 					})
